@@ -22,7 +22,7 @@ ASSUMPTIONS = [
     "duplicate indices follow plain mapping semantics: position of the first occurrence, value of the last",
     "aliased indices (16, 17, 48) may be named by either of their two enum names",
 ]
-BOUNDS = {"quick": {"depth_full": 2, "depth_core": 3}, "thorough": {"depth_full": 3, "depth_core": 4}}
+BOUNDS = {"quick": {"depth_full": 3, "depth_core": 4}, "thorough": {"depth_full": 3, "depth_core": 5}}
 
 # indices that have a pretty-printer (their human-readable values are the subject of C03, not of this check)
 HAS_PRETTY = {7, 8, 9, 10, 11, 12, 13, 14, 15, 16, 19, 26, 27, 29, 30, 36, 42, 46, 47, 51, 53, 54, 57, 58, 60, 61, 62, 63, 64, 65, 66, 74, 78}
